@@ -95,9 +95,16 @@ theorem norm_join_plain (d f : Bytes) (hf : PlainComp f) :
       rw [isAbs_append _ _ hd, splitSlash_append, splitSlash_plain f hf.1, foldl_normStep_plain _ _ _ hf]
       simp
 
+/-- The regenerated format literal keeps every name a non-trivial file name: it adds at least three
+    characters (so the result is never ``, `.` or `..`). -/
+theorem cmapFormat_ok : 3 ≤ Gen.PathGen.cmapPrefix.length + Gen.PathGen.cmapSuffix.length := by decide
+
 theorem cmapFilename_plain (name : Bytes) (h : plainFile (cmapFilename name) = true) :
     PlainComp (cmapFilename name) := by
-  have hlen : 10 ≤ (cmapFilename name).length := by simp [cmapFilename]
+  have hlen : 3 ≤ (cmapFilename name).length := by
+    have := cmapFormat_ok
+    simp only [cmapFilename, List.length_append]
+    omega
   refine ⟨by simpa [plainFile] using h, ?_, ?_, ?_⟩ <;>
   · intro he
     rw [he] at hlen
